@@ -6,7 +6,7 @@ sd = os.path.join(V, 'seeded')
 res = json.load(open(os.path.join(sd, 'RESULTS.json')))
 rows = []
 n = {'caught': 0, 'missed': 0, 'broken': 0, 'na': 0}
-for i in sorted(d for d in os.listdir(sd) if os.path.isdir(os.path.join(sd, d))):
+for i in sorted(d for d in os.listdir(sd) if os.path.isdir(os.path.join(sd, d)) and os.path.exists(os.path.join(sd, d, 'meta.json'))):
     m = json.load(open(os.path.join(sd, i, 'meta.json')))
     r = res.get(i, {})
     own = r.get('own_check_exit')
